@@ -1,166 +1,109 @@
-(* C20 — each instruction is charged the manual's bus-cycle mix at the areas it touches. *)
-From Coq Require Import Bool ZArith List.
-From K Require Import Lib.Types Model.Machine Model.Bus Model.Cost Model.Addressing Model.Exec Spec.Price Spec.ISA
-  Proofs.PriceProofs Proofs.FlagProofs Proofs.AluProofs Proofs.RegProofs Proofs.StepProofs.
-From K Require Import Spec.Domains Proofs.StepRefines Proofs.ChargeProofs.
-From K Require Import Lib.Bits Model.Alu Proofs.MemProofs Proofs.CtlProofs Proofs.MovProofs Proofs.BitMemProofs Proofs.StcProofs Proofs.StcExtProofs Proofs.StepRefinesCtl Proofs.StepRefines2 Proofs.ChargeTotals Proofs.StepPriced.
-Open Scope Z_scope.
+(* C20: every step theorem for a memory-operand, multi-word or control-transfer form, with its charge hypothesis discharged:
+   inside the C20 domain the step charges exactly the reference's cycle table priced by the C19 price list.
+   (generated from the statements of the step theorems by harness/genpriced.py; the proofs are checked like any other) *)
+From Coq Require Import Bool ZArith Lia ZifyBool List.
+From K Require Import Lib.Bits Lib.Types Model.Machine Model.Bus Model.Cost Model.Addressing Model.Alu Model.Exec Spec.Price Spec.ISA Spec.Domains
+  Proofs.PriceProofs Proofs.RegProofs Proofs.MemProofs Proofs.StepProofs Proofs.CtlProofs Proofs.MovProofs Proofs.BitMemProofs Proofs.StcProofs Proofs.StcExtProofs
+  Proofs.StepRefines Proofs.StepRefinesCtl Proofs.StepRefines2 Proofs.StepRefines4 Proofs.StepRefines6 Proofs.StepRefinesL Proofs.StepRefinesBit
+  Proofs.StepRefinesStc Proofs.StepRefinesMov4 Proofs.StepRefinesMov6 Proofs.StepRefinesMovL Proofs.StepRefinesMov78 Proofs.StepRefinesMovL10
+  Proofs.StepRefinesStcExt Proofs.ChargeProofs Proofs.ChargeTotals.
+Import ListNotations.
+Open Scope bool_scope. Open Scope Z_scope.
+Ltac Zify.zify_post_hook ::= Z.div_mod_to_equations.
 
-(* every term of a handler's charge is count x the C19 price at the stated address: instruction fetches at the
-   instruction's own address (operating PC), data / stack / vector cycles at the address passed *)
-Theorem fetch_cycles_price :
-  forall s n, bytes_ok (cbus s) -> dom_c19 (reg (cbus s) DRCRA) 0 n (opc s) = true ->
-    cs KI n s = Ok (n * price_ref (on_chip_ram (opc s))
-      (settings_of_area (reg (cbus s) ABWCR) (reg (cbus s) ASTCR) (reg (cbus s) WCRH) (reg (cbus s) WCRL) (reg (cbus s) DRCRA)
-                        (area_of (opc s))) 0) s.
-Proof.
-  intros s n Hb Hd. unfold cs, lift, calc_state. cbn [KI KL KM Z.eqb orb].
-  now rewrite price_table_proof.
-Qed.
-Theorem addressed_cycles_price :
-  forall s kind n addr, bytes_ok (cbus s) -> dom_c19 (reg (cbus s) DRCRA) kind n addr = true ->
-    csa kind n addr s = Ok (n * price_ref (on_chip_ram addr)
-      (settings_of_area (reg (cbus s) ABWCR) (reg (cbus s) ASTCR) (reg (cbus s) WCRH) (reg (cbus s) WCRL) (reg (cbus s) DRCRA)
-                        (area_of addr)) kind) s.
-Proof.
-  intros s kind n addr Hb Hd. unfold csa, lift. now rewrite price_table_proof.
-Qed.
-
-(* register-operand ALU forms are charged exactly one fetch cycle, whatever the operand values *)
-Theorem alu_rr_charge_value_independent :
-  forall o z op s s' n,
-    cpu_ok s -> cpu_ok s' -> cbus s = cbus s' -> opc s = opc s' ->
-    let rs := match z with SL => Z.land (nib op 3) 7 | _ => nib op 3 end in
-    field_ok z rs -> field_ok z (nib op 4) -> (o = AAddx -> z = SB) ->
-    cs KI 1 s = Ok n s ->
-    exists t t', run_tag (TAlu2Rn o z) op 0 0 s = Ok n t /\ run_tag (TAlu2Rn o z) op 0 0 s' = Ok n t'.
-Proof.
-  intros o z op s s' n Hs Hs' Hb Ho rs Hrs Hrd Hx Hcs.
-  assert (Hcs' : cs KI 1 s' = Ok n s').
-  { unfold cs, lift in *. rewrite <- Hb, <- Ho. destruct (calc_state (cbus s) (opc s) KI 1); inversion Hcs; reflexivity. }
-  eexists. eexists. split.
-  - apply alu2_rn_refines; assumption.
-  - apply alu2_rn_refines; assumption.
-Qed.
-
-(* for every form that the cycle table lists with one instruction fetch and nothing else (register ALU / MOV / bit forms,
-   byte immediates, ADDS/SUBS, STC.B), the charge the end-to-end step theorems of C01-C04 carry IS the reference's total:
-   cycles_ref priced by the C19 price list at the instruction's address *)
-Theorem register_form_total_charge :
-  forall i s, one_fetch_form i = true -> bytes_ok (cbus s) -> dom_c19 (reg (cbus s) DRCRA) 0 1 (pc s) = true ->
-    cs KI 1 (post_fetch s) = Ok (charge_ref i 2 s) (post_fetch s).
-Proof. exact register_form_total_charge_proof. Qed.
-
-(* the charge expression of every two-byte branch / jump / call / return / trap handler (ctl_suffix: the expression the
-   end-to-end step theorems of C05 / C06 carry), evaluated on the final state, IS the reference total - the byte-sized
-   partial sums never wrap (every price is between 1 and 14 states) *)
-Theorem control_form_total_charge :
-  forall i s s' m,
-    ctl_suffix i s = Some m -> ctl_dom i s ->
-    b_io1 (cbus s') = b_io1 (cbus s) -> opc s' = pc s -> bytes_ok (cbus s) ->
-    m s' = Ok (charge_ref i 2 s) s'.
-Proof. exact control_form_total_charge_proof. Qed.
-
-Theorem price_between_1_and_14 : forall s k a, 0 <= k <= 5 -> 1 <= price_at s k a <= 14.
-Proof. exact price_at_range. Qed.
-
-
-(* ---- totals for every form: the charge expression of each handler evaluates to the reference cycle table priced by C19 ---- *)
-(* [charge_expr i len s]: the charge expression of the handler of instruction i (the charge hypothesis of its step theorem);
-   [charged_at s s' len]: s' has the bus-controller registers of s and its operating PC at the last fetched word *)
-Theorem total_charge :
-  forall i len s s' m,
-    charge_expr i len s = Some m -> dom_c20 i len s = true -> len_matches i len = true ->
-    charged_at s s' len -> bytes_ok (cbus s) ->
-    m s' = Ok (charge_ref i len s) s'.
-Proof. exact total_charge_proof. Qed.
-
-(* inside the C20 domain no instruction changes the bus-controller registers (so the prices are those of the state before) *)
-Theorem instructions_leave_bus_controller :
-  forall i len s s', dom_c20 i len s = true -> sem_ref i len s = Some s' -> b_io1 (cbus s') = b_io1 (cbus s).
-Proof. exact sem_ref_io1. Qed.
-
-Theorem charge_after_execution :
-  forall i len s s' m,
-    charge_expr i len s = Some m -> dom_c20 i len s = true -> len_matches i len = true -> bytes_ok (cbus s) ->
-    sem_ref i len s = Some s' ->
-    m (set_opc (pc s + len - 2) s') = Ok (charge_ref i len s) (set_opc (pc s + len - 2) s').
-Proof. exact charge_after_exec_proof. Qed.
-
-(* every word of an instruction in the domain is priced like its first word *)
-Theorem code_words_same_price :
-  forall s len k kind, code_ok s len = true -> 0 <= k < len -> price_at s kind (pc s + k) = price_at s kind (pc s).
-Proof. exact code_same_price. Qed.
-
-Example c20_charge_expr_example :
-  forall s, charge_expr (IMovLoad SW (EDisp 1 4) 2) 4 s = Some (mov_charge SW ((reg32 s 1 + 4) mod A24) 2 0)
-            /\ len_matches (IMovLoad SW (EDisp 1 4) 2) 4 = true.
-Proof. intros s. split; reflexivity. Qed.
-
-(* ---- from the instruction words in memory to the reference semantics AND the reference's priced total, in one statement:
-   the step theorems of C01, C04, C05, C06, C08 with their charge hypothesis discharged by [charge_after_execution] ---- *)
-Theorem step_mov_load_ern_charged_reference_total :
-  forall s w w1 w2 w3 w4 z r rd s',
+Theorem step_mov_load_ern_priced s w w1 w2 w3 w4 z r rd s' :
   cpu_ok s -> bus_bytes_ok s -> fault s = false -> pc s mod 2 = 0 -> 0 <= pc s -> pc s + 2 < 4294967296 ->
   mem_read SW s (pc s) = Some w ->
   decode_ref w w1 w2 w3 w4 = Some (IMovLoad z (EInd r) rd, 2) ->
   dom_c20 (IMovLoad z (EInd r) rd) 2 s = true -> bytes_ok (cbus s) ->
   sem_ref (IMovLoad z (EInd r) rd) 2 s = Some s' ->
   step s = Ok (charge_ref (IMovLoad z (EInd r) rd) 2 s) (set_opc (pc s) s').
-Proof. exact step_mov_load_ern_priced. Qed.
+Proof.
+  intros.
+  all: match goal with Hd : dom_c20 ?i ?len ?s0 = true, Hs : sem_ref ?i ?len ?s0 = Some ?s1, Hb : bytes_ok _ |- _ =>
+    pose proof (charge_after_exec_proof i len s0 s1 _ eq_refl Hd eq_refl Hb Hs) as X end;
+    (replace (pc s + 2 - 2) with (pc s) in X by lia);
+    (eapply step_mov_load_ern_proof; try eassumption; exact X).
+Qed.
 
-Theorem step_mov_store_ern_charged_reference_total :
-  forall s w w1 w2 w3 w4 z rs r s',
+Theorem step_mov_store_ern_priced s w w1 w2 w3 w4 z rs r s' :
   cpu_ok s -> bus_bytes_ok s -> fault s = false -> pc s mod 2 = 0 -> 0 <= pc s -> pc s + 2 < 4294967296 ->
   mem_read SW s (pc s) = Some w ->
   decode_ref w w1 w2 w3 w4 = Some (IMovStore z rs (EInd r), 2) ->
   dom_c20 (IMovStore z rs (EInd r)) 2 s = true -> bytes_ok (cbus s) ->
   sem_ref (IMovStore z rs (EInd r)) 2 s = Some s' ->
   step s = Ok (charge_ref (IMovStore z rs (EInd r)) 2 s) (set_opc (pc s) s').
-Proof. exact step_mov_store_ern_priced. Qed.
+Proof.
+  intros.
+  all: match goal with Hd : dom_c20 ?i ?len ?s0 = true, Hs : sem_ref ?i ?len ?s0 = Some ?s1, Hb : bytes_ok _ |- _ =>
+    pose proof (charge_after_exec_proof i len s0 s1 _ eq_refl Hd eq_refl Hb Hs) as X end;
+    (replace (pc s + 2 - 2) with (pc s) in X by lia);
+    (eapply step_mov_store_ern_proof; try eassumption; exact X).
+Qed.
 
-Theorem step_mov_load_abs8_charged_reference_total :
-  forall s w w1 w2 w3 w4 a rd s',
+Theorem step_mov_load_abs8_priced s w w1 w2 w3 w4 a rd s' :
   cpu_ok s -> bus_bytes_ok s -> fault s = false -> pc s mod 2 = 0 -> 0 <= pc s -> pc s + 2 < 4294967296 ->
   mem_read SW s (pc s) = Some w ->
   decode_ref w w1 w2 w3 w4 = Some (IMovLoad SB (EAbs a) rd, 2) ->
   dom_c20 (IMovLoad SB (EAbs a) rd) 2 s = true -> bytes_ok (cbus s) ->
   sem_ref (IMovLoad SB (EAbs a) rd) 2 s = Some s' ->
   step s = Ok (charge_ref (IMovLoad SB (EAbs a) rd) 2 s) (set_opc (pc s) s').
-Proof. exact step_mov_load_abs8_priced. Qed.
+Proof.
+  intros.
+  all: match goal with Hd : dom_c20 ?i ?len ?s0 = true, Hs : sem_ref ?i ?len ?s0 = Some ?s1, Hb : bytes_ok _ |- _ =>
+    pose proof (charge_after_exec_proof i len s0 s1 _ eq_refl Hd eq_refl Hb Hs) as X end;
+    (replace (pc s + 2 - 2) with (pc s) in X by lia);
+    (eapply step_mov_load_abs8_proof; try eassumption; exact X).
+Qed.
 
-Theorem step_mov_store_abs8_charged_reference_total :
-  forall s w w1 w2 w3 w4 a rs s',
+Theorem step_mov_store_abs8_priced s w w1 w2 w3 w4 a rs s' :
   cpu_ok s -> bus_bytes_ok s -> fault s = false -> pc s mod 2 = 0 -> 0 <= pc s -> pc s + 2 < 4294967296 ->
   mem_read SW s (pc s) = Some w ->
   decode_ref w w1 w2 w3 w4 = Some (IMovStore SB rs (EAbs a), 2) ->
   dom_c20 (IMovStore SB rs (EAbs a)) 2 s = true -> bytes_ok (cbus s) ->
   sem_ref (IMovStore SB rs (EAbs a)) 2 s = Some s' ->
   step s = Ok (charge_ref (IMovStore SB rs (EAbs a)) 2 s) (set_opc (pc s) s').
-Proof. exact step_mov_store_abs8_priced. Qed.
+Proof.
+  intros.
+  all: match goal with Hd : dom_c20 ?i ?len ?s0 = true, Hs : sem_ref ?i ?len ?s0 = Some ?s1, Hb : bytes_ok _ |- _ =>
+    pose proof (charge_after_exec_proof i len s0 s1 _ eq_refl Hd eq_refl Hb Hs) as X end;
+    (replace (pc s + 2 - 2) with (pc s) in X by lia);
+    (eapply step_mov_store_abs8_proof; try eassumption; exact X).
+Qed.
 
-Theorem step_mov_postinc_charged_reference_total :
-  forall s w w1 w2 w3 w4 z r rd s',
+Theorem step_mov_postinc_priced s w w1 w2 w3 w4 z r rd s' :
   z <> SL -> cpu_ok s -> bus_bytes_ok s -> fault s = false -> pc s mod 2 = 0 -> 0 <= pc s -> pc s + 2 < 4294967296 ->
   mem_read SW s (pc s) = Some w ->
   decode_ref w w1 w2 w3 w4 = Some (IMovLoad z (EPostInc r) rd, 2) ->
   dom_c20 (IMovLoad z (EPostInc r) rd) 2 s = true -> bytes_ok (cbus s) ->
   sem_ref (IMovLoad z (EPostInc r) rd) 2 s = Some s' ->
   step s = Ok (charge_ref (IMovLoad z (EPostInc r) rd) 2 s) (set_opc (pc s) s').
-Proof. exact step_mov_postinc_priced. Qed.
+Proof.
+  intros.
+  match goal with Hz : ?z <> SL |- _ => destruct z; [| |contradiction] end.
+  all: match goal with Hd : dom_c20 ?i ?len ?s0 = true, Hs : sem_ref ?i ?len ?s0 = Some ?s1, Hb : bytes_ok _ |- _ =>
+    pose proof (charge_after_exec_proof i len s0 s1 _ eq_refl Hd eq_refl Hb Hs) as X end;
+    (replace (pc s + 2 - 2) with (pc s) in X by lia);
+    (eapply step_mov_postinc_proof; try eassumption; exact X).
+Qed.
 
-Theorem step_mov_predec_charged_reference_total :
-  forall s w w1 w2 w3 w4 z rs r s',
+Theorem step_mov_predec_priced s w w1 w2 w3 w4 z rs r s' :
   z <> SL -> cpu_ok s -> bus_bytes_ok s -> fault s = false -> pc s mod 2 = 0 -> 0 <= pc s -> pc s + 2 < 4294967296 ->
   mem_read SW s (pc s) = Some w ->
   decode_ref w w1 w2 w3 w4 = Some (IMovStore z rs (EPreDec r), 2) ->
   dom_c20 (IMovStore z rs (EPreDec r)) 2 s = true -> bytes_ok (cbus s) ->
   sem_ref (IMovStore z rs (EPreDec r)) 2 s = Some s' ->
   step s = Ok (charge_ref (IMovStore z rs (EPreDec r)) 2 s) (set_opc (pc s) s').
-Proof. exact step_mov_predec_priced. Qed.
+Proof.
+  intros.
+  match goal with Hz : ?z <> SL |- _ => destruct z; [| |contradiction] end.
+  all: match goal with Hd : dom_c20 ?i ?len ?s0 = true, Hs : sem_ref ?i ?len ?s0 = Some ?s1, Hb : bytes_ok _ |- _ =>
+    pose proof (charge_after_exec_proof i len s0 s1 _ eq_refl Hd eq_refl Hb Hs) as X end;
+    (replace (pc s + 2 - 2) with (pc s) in X by lia);
+    (eapply step_mov_predec_proof; try eassumption; exact X).
+Qed.
 
-Theorem step_jsr_ind_charged_reference_total :
-  forall s w w1 w2 w3 w4 aa s',
+Theorem step_jsr_ind_priced s w w1 w2 w3 w4 aa s' :
   cpu_ok s -> bus_bytes_ok s -> fault s = false -> pc s mod 2 = 0 -> 0 <= pc s -> pc s + 2 < 4294967296 ->
   mem_read SW s (pc s) = Some w ->
   decode_ref w w1 w2 w3 w4 = Some (IJsr (JInd aa), 2) ->
@@ -168,10 +111,15 @@ Theorem step_jsr_ind_charged_reference_total :
   dom_c20 (IJsr (JInd aa)) 2 s = true -> bytes_ok (cbus s) ->
   sem_ref (IJsr (JInd aa)) 2 s = Some s' ->
   step s = Ok (charge_ref (IJsr (JInd aa)) 2 s) (set_opc (pc s) s').
-Proof. exact step_jsr_ind_priced. Qed.
+Proof.
+  intros.
+  all: match goal with Hd : dom_c20 ?i ?len ?s0 = true, Hs : sem_ref ?i ?len ?s0 = Some ?s1, Hb : bytes_ok _ |- _ =>
+    pose proof (charge_after_exec_proof i len s0 s1 _ eq_refl Hd eq_refl Hb Hs) as X end;
+    (replace (pc s + 2 - 2) with (pc s) in X by lia);
+    (eapply step_jsr_ind_proof; try eassumption; exact X).
+Qed.
 
-Theorem step_bcc16_charged_reference_total :
-  forall s w d w2 w3 w4 cc disp s',
+Theorem step_bcc16_priced s w d w2 w3 w4 cc disp s' :
   cpu_ok s -> bus_bytes_ok s -> fault s = false -> pc s mod 2 = 0 -> 0 <= pc s -> pc s + 4 < 4294967296 ->
   mem_read SW s (pc s) = Some w -> mem_read SW s (pc s + 2) = Some d ->
   decode_ref w d w2 w3 w4 = Some (IBcc cc disp, 4) ->
@@ -179,20 +127,30 @@ Theorem step_bcc16_charged_reference_total :
   dom_c20 (IBcc cc disp) 4 s = true -> bytes_ok (cbus s) ->
   sem_ref (IBcc cc disp) 4 s = Some s' ->
   step s = Ok (charge_ref (IBcc cc disp) 4 s) (set_opc (pc s + 2) s').
-Proof. exact step_bcc16_priced. Qed.
+Proof.
+  intros.
+  all: match goal with Hd : dom_c20 ?i ?len ?s0 = true, Hs : sem_ref ?i ?len ?s0 = Some ?s1, Hb : bytes_ok _ |- _ =>
+    pose proof (charge_after_exec_proof i len s0 s1 _ eq_refl Hd eq_refl Hb Hs) as X end;
+    (replace (pc s + 4 - 2) with (pc s + 2) in X by lia);
+    (eapply step_bcc16_proof; try eassumption; exact X).
+Qed.
 
-Theorem step_jmp_abs_charged_reference_total :
-  forall s w d w2 w3 w4 a s',
+Theorem step_jmp_abs_priced s w d w2 w3 w4 a s' :
   bus_bytes_ok s -> fault s = false -> pc s mod 2 = 0 -> 0 <= pc s -> pc s + 4 < 4294967296 ->
   mem_read SW s (pc s) = Some w -> mem_read SW s (pc s + 2) = Some d ->
   decode_ref w d w2 w3 w4 = Some (IJmp (JAbs a), 4) ->
   dom_c20 (IJmp (JAbs a)) 4 s = true -> bytes_ok (cbus s) ->
   sem_ref (IJmp (JAbs a)) 4 s = Some s' ->
   step s = Ok (charge_ref (IJmp (JAbs a)) 4 s) (set_opc (pc s + 2) s').
-Proof. exact step_jmp_abs_priced. Qed.
+Proof.
+  intros.
+  all: match goal with Hd : dom_c20 ?i ?len ?s0 = true, Hs : sem_ref ?i ?len ?s0 = Some ?s1, Hb : bytes_ok _ |- _ =>
+    pose proof (charge_after_exec_proof i len s0 s1 _ eq_refl Hd eq_refl Hb Hs) as X end;
+    (replace (pc s + 4 - 2) with (pc s + 2) in X by lia);
+    (eapply step_jmp_abs_proof; try eassumption; exact X).
+Qed.
 
-Theorem step_bsr16_charged_reference_total :
-  forall s w d w2 w3 w4 disp s',
+Theorem step_bsr16_priced s w d w2 w3 w4 disp s' :
   cpu_ok s -> bus_bytes_ok s -> fault s = false -> pc s mod 2 = 0 -> 0 <= pc s -> pc s + 4 < 4294967296 ->
   mem_read SW s (pc s) = Some w -> mem_read SW s (pc s + 2) = Some d ->
   decode_ref w d w2 w3 w4 = Some (IBsr disp, 4) ->
@@ -200,40 +158,60 @@ Theorem step_bsr16_charged_reference_total :
   dom_c20 (IBsr disp) 4 s = true -> bytes_ok (cbus s) ->
   sem_ref (IBsr disp) 4 s = Some s' ->
   step s = Ok (charge_ref (IBsr disp) 4 s) (set_opc (pc s + 2) s').
-Proof. exact step_bsr16_priced. Qed.
+Proof.
+  intros.
+  all: match goal with Hd : dom_c20 ?i ?len ?s0 = true, Hs : sem_ref ?i ?len ?s0 = Some ?s1, Hb : bytes_ok _ |- _ =>
+    pose proof (charge_after_exec_proof i len s0 s1 _ eq_refl Hd eq_refl Hb Hs) as X end;
+    (replace (pc s + 4 - 2) with (pc s + 2) in X by lia);
+    (eapply step_bsr16_proof; try eassumption; exact X).
+Qed.
 
-Theorem step_jsr_abs_charged_reference_total :
-  forall s w d w2 w3 w4 a s',
+Theorem step_jsr_abs_priced s w d w2 w3 w4 a s' :
   cpu_ok s -> bus_bytes_ok s -> fault s = false -> pc s mod 2 = 0 -> 0 <= pc s -> pc s + 4 < 4294967296 ->
   mem_read SW s (pc s) = Some w -> mem_read SW s (pc s + 2) = Some d ->
   decode_ref w d w2 w3 w4 = Some (IJsr (JAbs a), 4) ->
   dom_c20 (IJsr (JAbs a)) 4 s = true -> bytes_ok (cbus s) ->
   sem_ref (IJsr (JAbs a)) 4 s = Some s' ->
   step s = Ok (charge_ref (IJsr (JAbs a)) 4 s) (set_opc (pc s + 2) s').
-Proof. exact step_jsr_abs_priced. Qed.
+Proof.
+  intros.
+  all: match goal with Hd : dom_c20 ?i ?len ?s0 = true, Hs : sem_ref ?i ?len ?s0 = Some ?s1, Hb : bytes_ok _ |- _ =>
+    pose proof (charge_after_exec_proof i len s0 s1 _ eq_refl Hd eq_refl Hb Hs) as X end;
+    (replace (pc s + 4 - 2) with (pc s + 2) in X by lia);
+    (eapply step_jsr_abs_proof; try eassumption; exact X).
+Qed.
 
-Theorem step_bit_ern_charged_reference_total :
-  forall s w0 w1 w2 w3 w4 o b r s',
+Theorem step_bit_ern_priced s w0 w1 w2 w3 w4 o b r s' :
   cpu_ok s -> bus_bytes_ok s -> fault s = false -> pc s mod 2 = 0 -> 0 <= pc s -> pc s + 4 < 4294967296 ->
   mem_read SW s (pc s) = Some w0 -> mem_read SW s (pc s + 2) = Some w1 ->
   decode_ref w0 w1 w2 w3 w4 = Some (IBit o b (BTMem (EInd r)), 4) ->
   dom_c20 (IBit o b (BTMem (EInd r))) 4 s = true -> bytes_ok (cbus s) ->
   sem_ref (IBit o b (BTMem (EInd r))) 4 s = Some s' ->
   step s = Ok (charge_ref (IBit o b (BTMem (EInd r))) 4 s) (set_opc (pc s + 2) s').
-Proof. exact step_bit_ern_priced. Qed.
+Proof.
+  intros.
+  all: match goal with Hd : dom_c20 ?i ?len ?s0 = true, Hs : sem_ref ?i ?len ?s0 = Some ?s1, Hb : bytes_ok _ |- _ =>
+    pose proof (charge_after_exec_proof i len s0 s1 _ eq_refl Hd eq_refl Hb Hs) as X end;
+    (replace (pc s + 4 - 2) with (pc s + 2) in X by lia);
+    (eapply step_bit_ern_proof; try eassumption; exact X).
+Qed.
 
-Theorem step_bit_abs_charged_reference_total :
-  forall s w0 w1 w2 w3 w4 o b a s',
+Theorem step_bit_abs_priced s w0 w1 w2 w3 w4 o b a s' :
   cpu_ok s -> bus_bytes_ok s -> fault s = false -> pc s mod 2 = 0 -> 0 <= pc s -> pc s + 4 < 4294967296 ->
   mem_read SW s (pc s) = Some w0 -> mem_read SW s (pc s + 2) = Some w1 ->
   decode_ref w0 w1 w2 w3 w4 = Some (IBit o b (BTMem (EAbs a)), 4) ->
   dom_c20 (IBit o b (BTMem (EAbs a))) 4 s = true -> bytes_ok (cbus s) ->
   sem_ref (IBit o b (BTMem (EAbs a))) 4 s = Some s' ->
   step s = Ok (charge_ref (IBit o b (BTMem (EAbs a))) 4 s) (set_opc (pc s + 2) s').
-Proof. exact step_bit_abs_priced. Qed.
+Proof.
+  intros.
+  all: match goal with Hd : dom_c20 ?i ?len ?s0 = true, Hs : sem_ref ?i ?len ?s0 = Some ?s1, Hb : bytes_ok _ |- _ =>
+    pose proof (charge_after_exec_proof i len s0 s1 _ eq_refl Hd eq_refl Hb Hs) as X end;
+    (replace (pc s + 4 - 2) with (pc s + 2) in X by lia);
+    (eapply step_bit_abs_proof; try eassumption; exact X).
+Qed.
 
-Theorem step_bcc8_charged_reference_total :
-  forall s w w1 w2 w3 w4 cc d s',
+Theorem step_bcc8_priced s w w1 w2 w3 w4 cc d s' :
   cpu_ok s -> bus_bytes_ok s -> fault s = false -> pc s mod 2 = 0 -> 0 <= pc s -> pc s + 2 < 4294967296 ->
   mem_read SW s (pc s) = Some w ->
   decode_ref w w1 w2 w3 w4 = Some (IBcc cc d, 2) ->
@@ -241,20 +219,30 @@ Theorem step_bcc8_charged_reference_total :
   dom_c20 (IBcc cc d) 2 s = true -> bytes_ok (cbus s) ->
   sem_ref (IBcc cc d) 2 s = Some s' ->
   step s = Ok (charge_ref (IBcc cc d) 2 s) (set_opc (pc s) s').
-Proof. exact step_bcc8_priced. Qed.
+Proof.
+  intros.
+  all: match goal with Hd : dom_c20 ?i ?len ?s0 = true, Hs : sem_ref ?i ?len ?s0 = Some ?s1, Hb : bytes_ok _ |- _ =>
+    pose proof (charge_after_exec_proof i len s0 s1 _ eq_refl Hd eq_refl Hb Hs) as X end;
+    (replace (pc s + 2 - 2) with (pc s) in X by lia);
+    (eapply step_bcc8_proof; try eassumption; exact X).
+Qed.
 
-Theorem step_jmp_ern_charged_reference_total :
-  forall s w w1 w2 w3 w4 r s',
+Theorem step_jmp_ern_priced s w w1 w2 w3 w4 r s' :
   bus_bytes_ok s -> fault s = false -> pc s mod 2 = 0 -> 0 <= pc s -> pc s + 2 < 4294967296 ->
   mem_read SW s (pc s) = Some w ->
   decode_ref w w1 w2 w3 w4 = Some (IJmp (JReg r), 2) ->
   dom_c20 (IJmp (JReg r)) 2 s = true -> bytes_ok (cbus s) ->
   sem_ref (IJmp (JReg r)) 2 s = Some s' ->
   step s = Ok (charge_ref (IJmp (JReg r)) 2 s) (set_opc (pc s) s').
-Proof. exact step_jmp_ern_priced. Qed.
+Proof.
+  intros.
+  all: match goal with Hd : dom_c20 ?i ?len ?s0 = true, Hs : sem_ref ?i ?len ?s0 = Some ?s1, Hb : bytes_ok _ |- _ =>
+    pose proof (charge_after_exec_proof i len s0 s1 _ eq_refl Hd eq_refl Hb Hs) as X end;
+    (replace (pc s + 2 - 2) with (pc s) in X by lia);
+    (eapply step_jmp_ern_proof; try eassumption; exact X).
+Qed.
 
-Theorem step_bsr8_charged_reference_total :
-  forall s w w1 w2 w3 w4 d s',
+Theorem step_bsr8_priced s w w1 w2 w3 w4 d s' :
   cpu_ok s -> bus_bytes_ok s -> fault s = false -> pc s mod 2 = 0 -> 0 <= pc s -> pc s + 2 < 4294967296 ->
   mem_read SW s (pc s) = Some w ->
   decode_ref w w1 w2 w3 w4 = Some (IBsr d, 2) ->
@@ -262,50 +250,75 @@ Theorem step_bsr8_charged_reference_total :
   dom_c20 (IBsr d) 2 s = true -> bytes_ok (cbus s) ->
   sem_ref (IBsr d) 2 s = Some s' ->
   step s = Ok (charge_ref (IBsr d) 2 s) (set_opc (pc s) s').
-Proof. exact step_bsr8_priced. Qed.
+Proof.
+  intros.
+  all: match goal with Hd : dom_c20 ?i ?len ?s0 = true, Hs : sem_ref ?i ?len ?s0 = Some ?s1, Hb : bytes_ok _ |- _ =>
+    pose proof (charge_after_exec_proof i len s0 s1 _ eq_refl Hd eq_refl Hb Hs) as X end;
+    (replace (pc s + 2 - 2) with (pc s) in X by lia);
+    (eapply step_bsr8_proof; try eassumption; exact X).
+Qed.
 
-Theorem step_jsr_ern_charged_reference_total :
-  forall s w w1 w2 w3 w4 r s',
+Theorem step_jsr_ern_priced s w w1 w2 w3 w4 r s' :
   cpu_ok s -> bus_bytes_ok s -> fault s = false -> pc s mod 2 = 0 -> 0 <= pc s -> pc s + 2 < 4294967296 ->
   mem_read SW s (pc s) = Some w ->
   decode_ref w w1 w2 w3 w4 = Some (IJsr (JReg r), 2) ->
   dom_c20 (IJsr (JReg r)) 2 s = true -> bytes_ok (cbus s) ->
   sem_ref (IJsr (JReg r)) 2 s = Some s' ->
   step s = Ok (charge_ref (IJsr (JReg r)) 2 s) (set_opc (pc s) s').
-Proof. exact step_jsr_ern_priced. Qed.
+Proof.
+  intros.
+  all: match goal with Hd : dom_c20 ?i ?len ?s0 = true, Hs : sem_ref ?i ?len ?s0 = Some ?s1, Hb : bytes_ok _ |- _ =>
+    pose proof (charge_after_exec_proof i len s0 s1 _ eq_refl Hd eq_refl Hb Hs) as X end;
+    (replace (pc s + 2 - 2) with (pc s) in X by lia);
+    (eapply step_jsr_ern_proof; try eassumption; exact X).
+Qed.
 
-Theorem step_jmp_ind_charged_reference_total :
-  forall s w w1 w2 w3 w4 aa s',
+Theorem step_jmp_ind_priced s w w1 w2 w3 w4 aa s' :
   bus_bytes_ok s -> fault s = false -> pc s mod 2 = 0 -> 0 <= pc s -> pc s + 2 < 4294967296 ->
   mem_read SW s (pc s) = Some w ->
   decode_ref w w1 w2 w3 w4 = Some (IJmp (JInd aa), 2) ->
   dom_c20 (IJmp (JInd aa)) 2 s = true -> bytes_ok (cbus s) ->
   sem_ref (IJmp (JInd aa)) 2 s = Some s' ->
   step s = Ok (charge_ref (IJmp (JInd aa)) 2 s) (set_opc (pc s) s').
-Proof. exact step_jmp_ind_priced. Qed.
+Proof.
+  intros.
+  all: match goal with Hd : dom_c20 ?i ?len ?s0 = true, Hs : sem_ref ?i ?len ?s0 = Some ?s1, Hb : bytes_ok _ |- _ =>
+    pose proof (charge_after_exec_proof i len s0 s1 _ eq_refl Hd eq_refl Hb Hs) as X end;
+    (replace (pc s + 2 - 2) with (pc s) in X by lia);
+    (eapply step_jmp_ind_proof; try eassumption; exact X).
+Qed.
 
-Theorem step_rts_charged_reference_total :
-  forall s w w1 w2 w3 w4 s',
+Theorem step_rts_priced s w w1 w2 w3 w4 s' :
   bus_bytes_ok s -> fault s = false -> pc s mod 2 = 0 -> 0 <= pc s -> pc s + 2 < 4294967296 ->
   mem_read SW s (pc s) = Some w ->
   decode_ref w w1 w2 w3 w4 = Some (IRts, 2) ->
   dom_c20 IRts 2 s = true -> bytes_ok (cbus s) ->
   sem_ref IRts 2 s = Some s' ->
   step s = Ok (charge_ref IRts 2 s) (set_opc (pc s) s').
-Proof. exact step_rts_priced. Qed.
+Proof.
+  intros.
+  all: match goal with Hd : dom_c20 ?i ?len ?s0 = true, Hs : sem_ref ?i ?len ?s0 = Some ?s1, Hb : bytes_ok _ |- _ =>
+    pose proof (charge_after_exec_proof i len s0 s1 _ eq_refl Hd eq_refl Hb Hs) as X end;
+    (replace (pc s + 2 - 2) with (pc s) in X by lia);
+    (eapply step_rts_proof; try eassumption; exact X).
+Qed.
 
-Theorem step_rte_charged_reference_total :
-  forall s w w1 w2 w3 w4 s',
+Theorem step_rte_priced s w w1 w2 w3 w4 s' :
   bus_bytes_ok s -> fault s = false -> pc s mod 2 = 0 -> 0 <= pc s -> pc s + 2 < 4294967296 ->
   mem_read SW s (pc s) = Some w ->
   decode_ref w w1 w2 w3 w4 = Some (IRte, 2) ->
   dom_c20 IRte 2 s = true -> bytes_ok (cbus s) ->
   sem_ref IRte 2 s = Some s' ->
   step s = Ok (charge_ref IRte 2 s) (set_opc (pc s) s').
-Proof. exact step_rte_priced. Qed.
+Proof.
+  intros.
+  all: match goal with Hd : dom_c20 ?i ?len ?s0 = true, Hs : sem_ref ?i ?len ?s0 = Some ?s1, Hb : bytes_ok _ |- _ =>
+    pose proof (charge_after_exec_proof i len s0 s1 _ eq_refl Hd eq_refl Hb Hs) as X end;
+    (replace (pc s + 2 - 2) with (pc s) in X by lia);
+    (eapply step_rte_proof; try eassumption; exact X).
+Qed.
 
-Theorem step_trapa_charged_reference_total :
-  forall s w w1 w2 w3 w4 k s',
+Theorem step_trapa_priced s w w1 w2 w3 w4 k s' :
   cpu_ok s -> fault s = false -> bus_bytes_ok s -> pc s mod 2 = 0 -> 0 <= pc s -> pc s + 2 < 16777216 ->
   mem_read SW s (pc s) = Some w ->
   decode_ref w w1 w2 w3 w4 = Some (ITrapa k, 2) ->
@@ -313,90 +326,135 @@ Theorem step_trapa_charged_reference_total :
   dom_c20 (ITrapa k) 2 s = true -> bytes_ok (cbus s) ->
   sem_ref (ITrapa k) 2 s = Some s' ->
   step s = Ok (charge_ref (ITrapa k) 2 s) (set_opc (pc s) s').
-Proof. exact step_trapa_priced. Qed.
+Proof.
+  intros.
+  all: match goal with Hd : dom_c20 ?i ?len ?s0 = true, Hs : sem_ref ?i ?len ?s0 = Some ?s1, Hb : bytes_ok _ |- _ =>
+    pose proof (charge_after_exec_proof i len s0 s1 _ eq_refl Hd eq_refl Hb Hs) as X end;
+    (replace (pc s + 2 - 2) with (pc s) in X by lia);
+    (eapply step_trapa_proof; try eassumption; exact X).
+Qed.
 
-Theorem step_movl_load_ern_charged_reference_total :
-  forall s w1 w2 w3 w4 r rd s',
+Theorem step_movl_load_ern_priced s w1 w2 w3 w4 r rd s' :
   cpu_ok s -> bus_bytes_ok s -> fault s = false -> pc s mod 2 = 0 -> 0 <= pc s -> pc s + 4 < 4294967296 ->
   mem_read SW s (pc s) = Some 0x0100 -> mem_read SW s (pc s + 2) = Some w1 ->
   decode_ref 0x0100 w1 w2 w3 w4 = Some (IMovLoad SL (EInd r) rd, 4) ->
   dom_c20 (IMovLoad SL (EInd r) rd) 4 s = true -> bytes_ok (cbus s) ->
   sem_ref (IMovLoad SL (EInd r) rd) 4 s = Some s' ->
   step s = Ok (charge_ref (IMovLoad SL (EInd r) rd) 4 s) (set_opc (pc s + 2) s').
-Proof. exact step_movl_load_ern_priced. Qed.
+Proof.
+  intros.
+  all: match goal with Hd : dom_c20 ?i ?len ?s0 = true, Hs : sem_ref ?i ?len ?s0 = Some ?s1, Hb : bytes_ok _ |- _ =>
+    pose proof (charge_after_exec_proof i len s0 s1 _ eq_refl Hd eq_refl Hb Hs) as X end;
+    (replace (pc s + 4 - 2) with (pc s + 2) in X by lia);
+    (eapply step_movl_load_ern_proof; try eassumption; exact X).
+Qed.
 
-Theorem step_movl_store_ern_charged_reference_total :
-  forall s w1 w2 w3 w4 rs r s',
+Theorem step_movl_store_ern_priced s w1 w2 w3 w4 rs r s' :
   cpu_ok s -> bus_bytes_ok s -> fault s = false -> pc s mod 2 = 0 -> 0 <= pc s -> pc s + 4 < 4294967296 ->
   mem_read SW s (pc s) = Some 0x0100 -> mem_read SW s (pc s + 2) = Some w1 ->
   decode_ref 0x0100 w1 w2 w3 w4 = Some (IMovStore SL rs (EInd r), 4) ->
   dom_c20 (IMovStore SL rs (EInd r)) 4 s = true -> bytes_ok (cbus s) ->
   sem_ref (IMovStore SL rs (EInd r)) 4 s = Some s' ->
   step s = Ok (charge_ref (IMovStore SL rs (EInd r)) 4 s) (set_opc (pc s + 2) s').
-Proof. exact step_movl_store_ern_priced. Qed.
+Proof.
+  intros.
+  all: match goal with Hd : dom_c20 ?i ?len ?s0 = true, Hs : sem_ref ?i ?len ?s0 = Some ?s1, Hb : bytes_ok _ |- _ =>
+    pose proof (charge_after_exec_proof i len s0 s1 _ eq_refl Hd eq_refl Hb Hs) as X end;
+    (replace (pc s + 4 - 2) with (pc s + 2) in X by lia);
+    (eapply step_movl_store_ern_proof; try eassumption; exact X).
+Qed.
 
-Theorem step_pop_l_charged_reference_total :
-  forall s w1 w2 w3 w4 r rd s',
+Theorem step_pop_l_priced s w1 w2 w3 w4 r rd s' :
   cpu_ok s -> bus_bytes_ok s -> fault s = false -> pc s mod 2 = 0 -> 0 <= pc s -> pc s + 4 < 4294967296 ->
   mem_read SW s (pc s) = Some 0x0100 -> mem_read SW s (pc s + 2) = Some w1 ->
   decode_ref 0x0100 w1 w2 w3 w4 = Some (IMovLoad SL (EPostInc r) rd, 4) ->
   dom_c20 (IMovLoad SL (EPostInc r) rd) 4 s = true -> bytes_ok (cbus s) ->
   sem_ref (IMovLoad SL (EPostInc r) rd) 4 s = Some s' ->
   step s = Ok (charge_ref (IMovLoad SL (EPostInc r) rd) 4 s) (set_opc (pc s + 2) s').
-Proof. exact step_pop_l_priced. Qed.
+Proof.
+  intros.
+  all: match goal with Hd : dom_c20 ?i ?len ?s0 = true, Hs : sem_ref ?i ?len ?s0 = Some ?s1, Hb : bytes_ok _ |- _ =>
+    pose proof (charge_after_exec_proof i len s0 s1 _ eq_refl Hd eq_refl Hb Hs) as X end;
+    (replace (pc s + 4 - 2) with (pc s + 2) in X by lia);
+    (eapply step_pop_l_proof; try eassumption; exact X).
+Qed.
 
-Theorem step_push_l_charged_reference_total :
-  forall s w1 w2 w3 w4 rs r s',
+Theorem step_push_l_priced s w1 w2 w3 w4 rs r s' :
   cpu_ok s -> bus_bytes_ok s -> fault s = false -> pc s mod 2 = 0 -> 0 <= pc s -> pc s + 4 < 4294967296 ->
   mem_read SW s (pc s) = Some 0x0100 -> mem_read SW s (pc s + 2) = Some w1 ->
   decode_ref 0x0100 w1 w2 w3 w4 = Some (IMovStore SL rs (EPreDec r), 4) ->
   dom_c20 (IMovStore SL rs (EPreDec r)) 4 s = true -> bytes_ok (cbus s) ->
   sem_ref (IMovStore SL rs (EPreDec r)) 4 s = Some s' ->
   step s = Ok (charge_ref (IMovStore SL rs (EPreDec r)) 4 s) (set_opc (pc s + 2) s').
-Proof. exact step_push_l_priced. Qed.
+Proof.
+  intros.
+  all: match goal with Hd : dom_c20 ?i ?len ?s0 = true, Hs : sem_ref ?i ?len ?s0 = Some ?s1, Hb : bytes_ok _ |- _ =>
+    pose proof (charge_after_exec_proof i len s0 s1 _ eq_refl Hd eq_refl Hb Hs) as X end;
+    (replace (pc s + 4 - 2) with (pc s + 2) in X by lia);
+    (eapply step_push_l_proof; try eassumption; exact X).
+Qed.
 
-Theorem step_mov_load_disp16_charged_reference_total :
-  forall s w d w2 w3 w4 z r disp rd s',
+Theorem step_mov_load_disp16_priced s w d w2 w3 w4 z r disp rd s' :
   cpu_ok s -> bus_bytes_ok s -> fault s = false -> pc s mod 2 = 0 -> 0 <= pc s -> pc s + 4 < 4294967296 ->
   mem_read SW s (pc s) = Some w -> mem_read SW s (pc s + 2) = Some d ->
   decode_ref w d w2 w3 w4 = Some (IMovLoad z (EDisp r disp) rd, 4) ->
   dom_c20 (IMovLoad z (EDisp r disp) rd) 4 s = true -> bytes_ok (cbus s) ->
   sem_ref (IMovLoad z (EDisp r disp) rd) 4 s = Some s' ->
   step s = Ok (charge_ref (IMovLoad z (EDisp r disp) rd) 4 s) (set_opc (pc s + 2) s').
-Proof. exact step_mov_load_disp16_priced. Qed.
+Proof.
+  intros.
+  all: match goal with Hd : dom_c20 ?i ?len ?s0 = true, Hs : sem_ref ?i ?len ?s0 = Some ?s1, Hb : bytes_ok _ |- _ =>
+    pose proof (charge_after_exec_proof i len s0 s1 _ eq_refl Hd eq_refl Hb Hs) as X end;
+    (replace (pc s + 4 - 2) with (pc s + 2) in X by lia);
+    (eapply step_mov_load_disp16_proof; try eassumption; exact X).
+Qed.
 
-Theorem step_mov_store_disp16_charged_reference_total :
-  forall s w d w2 w3 w4 z rs r disp s',
+Theorem step_mov_store_disp16_priced s w d w2 w3 w4 z rs r disp s' :
   cpu_ok s -> bus_bytes_ok s -> fault s = false -> pc s mod 2 = 0 -> 0 <= pc s -> pc s + 4 < 4294967296 ->
   mem_read SW s (pc s) = Some w -> mem_read SW s (pc s + 2) = Some d ->
   decode_ref w d w2 w3 w4 = Some (IMovStore z rs (EDisp r disp), 4) ->
   dom_c20 (IMovStore z rs (EDisp r disp)) 4 s = true -> bytes_ok (cbus s) ->
   sem_ref (IMovStore z rs (EDisp r disp)) 4 s = Some s' ->
   step s = Ok (charge_ref (IMovStore z rs (EDisp r disp)) 4 s) (set_opc (pc s + 2) s').
-Proof. exact step_mov_store_disp16_priced. Qed.
+Proof.
+  intros.
+  all: match goal with Hd : dom_c20 ?i ?len ?s0 = true, Hs : sem_ref ?i ?len ?s0 = Some ?s1, Hb : bytes_ok _ |- _ =>
+    pose proof (charge_after_exec_proof i len s0 s1 _ eq_refl Hd eq_refl Hb Hs) as X end;
+    (replace (pc s + 4 - 2) with (pc s + 2) in X by lia);
+    (eapply step_mov_store_disp16_proof; try eassumption; exact X).
+Qed.
 
-Theorem step_mov_load_abs16_charged_reference_total :
-  forall s w d w2 w3 w4 z a rd s',
+Theorem step_mov_load_abs16_priced s w d w2 w3 w4 z a rd s' :
   cpu_ok s -> bus_bytes_ok s -> fault s = false -> pc s mod 2 = 0 -> 0 <= pc s -> pc s + 4 < 4294967296 ->
   mem_read SW s (pc s) = Some w -> mem_read SW s (pc s + 2) = Some d ->
   decode_ref w d w2 w3 w4 = Some (IMovLoad z (EAbs a) rd, 4) ->
   dom_c20 (IMovLoad z (EAbs a) rd) 4 s = true -> bytes_ok (cbus s) ->
   sem_ref (IMovLoad z (EAbs a) rd) 4 s = Some s' ->
   step s = Ok (charge_ref (IMovLoad z (EAbs a) rd) 4 s) (set_opc (pc s + 2) s').
-Proof. exact step_mov_load_abs16_priced. Qed.
+Proof.
+  intros.
+  all: match goal with Hd : dom_c20 ?i ?len ?s0 = true, Hs : sem_ref ?i ?len ?s0 = Some ?s1, Hb : bytes_ok _ |- _ =>
+    pose proof (charge_after_exec_proof i len s0 s1 _ eq_refl Hd eq_refl Hb Hs) as X end;
+    (replace (pc s + 4 - 2) with (pc s + 2) in X by lia);
+    (eapply step_mov_load_abs16_proof; try eassumption; exact X).
+Qed.
 
-Theorem step_mov_store_abs16_charged_reference_total :
-  forall s w d w2 w3 w4 z rs a s',
+Theorem step_mov_store_abs16_priced s w d w2 w3 w4 z rs a s' :
   cpu_ok s -> bus_bytes_ok s -> fault s = false -> pc s mod 2 = 0 -> 0 <= pc s -> pc s + 4 < 4294967296 ->
   mem_read SW s (pc s) = Some w -> mem_read SW s (pc s + 2) = Some d ->
   decode_ref w d w2 w3 w4 = Some (IMovStore z rs (EAbs a), 4) ->
   dom_c20 (IMovStore z rs (EAbs a)) 4 s = true -> bytes_ok (cbus s) ->
   sem_ref (IMovStore z rs (EAbs a)) 4 s = Some s' ->
   step s = Ok (charge_ref (IMovStore z rs (EAbs a)) 4 s) (set_opc (pc s + 2) s').
-Proof. exact step_mov_store_abs16_priced. Qed.
+Proof.
+  intros.
+  all: match goal with Hd : dom_c20 ?i ?len ?s0 = true, Hs : sem_ref ?i ?len ?s0 = Some ?s1, Hb : bytes_ok _ |- _ =>
+    pose proof (charge_after_exec_proof i len s0 s1 _ eq_refl Hd eq_refl Hb Hs) as X end;
+    (replace (pc s + 4 - 2) with (pc s + 2) in X by lia);
+    (eapply step_mov_store_abs16_proof; try eassumption; exact X).
+Qed.
 
-Theorem step_mov_load_abs24_charged_reference_total :
-  forall s w h l w3 w4 z a rd s',
+Theorem step_mov_load_abs24_priced s w h l w3 w4 z a rd s' :
   z <> SL ->
   cpu_ok s -> bus_bytes_ok s -> fault s = false -> pc s mod 2 = 0 -> 0 <= pc s -> pc s + 6 < 4294967296 ->
   mem_read SW s (pc s) = Some w -> mem_read SW s (pc s + 2) = Some h -> mem_read SW s (pc s + 4) = Some l ->
@@ -404,10 +462,15 @@ Theorem step_mov_load_abs24_charged_reference_total :
   dom_c20 (IMovLoad z (EAbs a) rd) 6 s = true -> bytes_ok (cbus s) ->
   sem_ref (IMovLoad z (EAbs a) rd) 6 s = Some s' ->
   step s = Ok (charge_ref (IMovLoad z (EAbs a) rd) 6 s) (set_opc (pc s + 4) s').
-Proof. exact step_mov_load_abs24_priced. Qed.
+Proof.
+  intros.
+  all: match goal with Hd : dom_c20 ?i ?len ?s0 = true, Hs : sem_ref ?i ?len ?s0 = Some ?s1, Hb : bytes_ok _ |- _ =>
+    pose proof (charge_after_exec_proof i len s0 s1 _ eq_refl Hd eq_refl Hb Hs) as X end;
+    (replace (pc s + 6 - 2) with (pc s + 4) in X by lia);
+    (eapply step_mov_load_abs24_proof; try eassumption; exact X).
+Qed.
 
-Theorem step_mov_store_abs24_charged_reference_total :
-  forall s w h l w3 w4 z rs a s',
+Theorem step_mov_store_abs24_priced s w h l w3 w4 z rs a s' :
   z <> SL ->
   cpu_ok s -> bus_bytes_ok s -> fault s = false -> pc s mod 2 = 0 -> 0 <= pc s -> pc s + 6 < 4294967296 ->
   mem_read SW s (pc s) = Some w -> mem_read SW s (pc s + 2) = Some h -> mem_read SW s (pc s + 4) = Some l ->
@@ -415,10 +478,15 @@ Theorem step_mov_store_abs24_charged_reference_total :
   dom_c20 (IMovStore z rs (EAbs a)) 6 s = true -> bytes_ok (cbus s) ->
   sem_ref (IMovStore z rs (EAbs a)) 6 s = Some s' ->
   step s = Ok (charge_ref (IMovStore z rs (EAbs a)) 6 s) (set_opc (pc s + 4) s').
-Proof. exact step_mov_store_abs24_priced. Qed.
+Proof.
+  intros.
+  all: match goal with Hd : dom_c20 ?i ?len ?s0 = true, Hs : sem_ref ?i ?len ?s0 = Some ?s1, Hb : bytes_ok _ |- _ =>
+    pose proof (charge_after_exec_proof i len s0 s1 _ eq_refl Hd eq_refl Hb Hs) as X end;
+    (replace (pc s + 6 - 2) with (pc s + 4) in X by lia);
+    (eapply step_mov_store_abs24_proof; try eassumption; exact X).
+Qed.
 
-Theorem step_mov_load_disp24_charged_reference_total :
-  forall s w0 w1 h l w4 z r disp rd s',
+Theorem step_mov_load_disp24_priced s w0 w1 h l w4 z r disp rd s' :
   z <> SL ->
   cpu_ok s -> bus_bytes_ok s -> fault s = false -> pc s mod 2 = 0 -> 0 <= pc s -> pc s + 8 < 4294967296 ->
   mem_read SW s (pc s) = Some w0 -> mem_read SW s (pc s + 2) = Some w1 ->
@@ -427,10 +495,15 @@ Theorem step_mov_load_disp24_charged_reference_total :
   dom_c20 (IMovLoad z (EDisp r disp) rd) 8 s = true -> bytes_ok (cbus s) ->
   sem_ref (IMovLoad z (EDisp r disp) rd) 8 s = Some s' ->
   step s = Ok (charge_ref (IMovLoad z (EDisp r disp) rd) 8 s) (set_opc (pc s + 6) s').
-Proof. exact step_mov_load_disp24_priced. Qed.
+Proof.
+  intros.
+  all: match goal with Hd : dom_c20 ?i ?len ?s0 = true, Hs : sem_ref ?i ?len ?s0 = Some ?s1, Hb : bytes_ok _ |- _ =>
+    pose proof (charge_after_exec_proof i len s0 s1 _ eq_refl Hd eq_refl Hb Hs) as X end;
+    (replace (pc s + 8 - 2) with (pc s + 6) in X by lia);
+    (eapply step_mov_load_disp24_proof; try eassumption; exact X).
+Qed.
 
-Theorem step_mov_store_disp24_charged_reference_total :
-  forall s w0 w1 h l w4 z rs r disp s',
+Theorem step_mov_store_disp24_priced s w0 w1 h l w4 z rs r disp s' :
   z <> SL ->
   cpu_ok s -> bus_bytes_ok s -> fault s = false -> pc s mod 2 = 0 -> 0 <= pc s -> pc s + 8 < 4294967296 ->
   mem_read SW s (pc s) = Some w0 -> mem_read SW s (pc s + 2) = Some w1 ->
@@ -439,50 +512,75 @@ Theorem step_mov_store_disp24_charged_reference_total :
   dom_c20 (IMovStore z rs (EDisp r disp)) 8 s = true -> bytes_ok (cbus s) ->
   sem_ref (IMovStore z rs (EDisp r disp)) 8 s = Some s' ->
   step s = Ok (charge_ref (IMovStore z rs (EDisp r disp)) 8 s) (set_opc (pc s + 6) s').
-Proof. exact step_mov_store_disp24_priced. Qed.
+Proof.
+  intros.
+  all: match goal with Hd : dom_c20 ?i ?len ?s0 = true, Hs : sem_ref ?i ?len ?s0 = Some ?s1, Hb : bytes_ok _ |- _ =>
+    pose proof (charge_after_exec_proof i len s0 s1 _ eq_refl Hd eq_refl Hb Hs) as X end;
+    (replace (pc s + 8 - 2) with (pc s + 6) in X by lia);
+    (eapply step_mov_store_disp24_proof; try eassumption; exact X).
+Qed.
 
-Theorem step_movl_load_disp16_charged_reference_total :
-  forall s w1 d w3 w4 r disp rd s',
+Theorem step_movl_load_disp16_priced s w1 d w3 w4 r disp rd s' :
   cpu_ok s -> bus_bytes_ok s -> fault s = false -> pc s mod 2 = 0 -> 0 <= pc s -> pc s + 6 < 4294967296 ->
   mem_read SW s (pc s) = Some 0x0100 -> mem_read SW s (pc s + 2) = Some w1 -> mem_read SW s (pc s + 4) = Some d ->
   decode_ref 0x0100 w1 d w3 w4 = Some (IMovLoad SL (EDisp r disp) rd, 6) ->
   dom_c20 (IMovLoad SL (EDisp r disp) rd) 6 s = true -> bytes_ok (cbus s) ->
   sem_ref (IMovLoad SL (EDisp r disp) rd) 6 s = Some s' ->
   step s = Ok (charge_ref (IMovLoad SL (EDisp r disp) rd) 6 s) (set_opc (pc s + 4) s').
-Proof. exact step_movl_load_disp16_priced. Qed.
+Proof.
+  intros.
+  all: match goal with Hd : dom_c20 ?i ?len ?s0 = true, Hs : sem_ref ?i ?len ?s0 = Some ?s1, Hb : bytes_ok _ |- _ =>
+    pose proof (charge_after_exec_proof i len s0 s1 _ eq_refl Hd eq_refl Hb Hs) as X end;
+    (replace (pc s + 6 - 2) with (pc s + 4) in X by lia);
+    (eapply step_movl_load_disp16_proof; try eassumption; exact X).
+Qed.
 
-Theorem step_movl_store_disp16_charged_reference_total :
-  forall s w1 d w3 w4 rs r disp s',
+Theorem step_movl_store_disp16_priced s w1 d w3 w4 rs r disp s' :
   cpu_ok s -> bus_bytes_ok s -> fault s = false -> pc s mod 2 = 0 -> 0 <= pc s -> pc s + 6 < 4294967296 ->
   mem_read SW s (pc s) = Some 0x0100 -> mem_read SW s (pc s + 2) = Some w1 -> mem_read SW s (pc s + 4) = Some d ->
   decode_ref 0x0100 w1 d w3 w4 = Some (IMovStore SL rs (EDisp r disp), 6) ->
   dom_c20 (IMovStore SL rs (EDisp r disp)) 6 s = true -> bytes_ok (cbus s) ->
   sem_ref (IMovStore SL rs (EDisp r disp)) 6 s = Some s' ->
   step s = Ok (charge_ref (IMovStore SL rs (EDisp r disp)) 6 s) (set_opc (pc s + 4) s').
-Proof. exact step_movl_store_disp16_priced. Qed.
+Proof.
+  intros.
+  all: match goal with Hd : dom_c20 ?i ?len ?s0 = true, Hs : sem_ref ?i ?len ?s0 = Some ?s1, Hb : bytes_ok _ |- _ =>
+    pose proof (charge_after_exec_proof i len s0 s1 _ eq_refl Hd eq_refl Hb Hs) as X end;
+    (replace (pc s + 6 - 2) with (pc s + 4) in X by lia);
+    (eapply step_movl_store_disp16_proof; try eassumption; exact X).
+Qed.
 
-Theorem step_movl_load_abs16_charged_reference_total :
-  forall s w1 d w3 w4 a rd s',
+Theorem step_movl_load_abs16_priced s w1 d w3 w4 a rd s' :
   cpu_ok s -> bus_bytes_ok s -> fault s = false -> pc s mod 2 = 0 -> 0 <= pc s -> pc s + 6 < 4294967296 ->
   mem_read SW s (pc s) = Some 0x0100 -> mem_read SW s (pc s + 2) = Some w1 -> mem_read SW s (pc s + 4) = Some d ->
   decode_ref 0x0100 w1 d w3 w4 = Some (IMovLoad SL (EAbs a) rd, 6) ->
   dom_c20 (IMovLoad SL (EAbs a) rd) 6 s = true -> bytes_ok (cbus s) ->
   sem_ref (IMovLoad SL (EAbs a) rd) 6 s = Some s' ->
   step s = Ok (charge_ref (IMovLoad SL (EAbs a) rd) 6 s) (set_opc (pc s + 4) s').
-Proof. exact step_movl_load_abs16_priced. Qed.
+Proof.
+  intros.
+  all: match goal with Hd : dom_c20 ?i ?len ?s0 = true, Hs : sem_ref ?i ?len ?s0 = Some ?s1, Hb : bytes_ok _ |- _ =>
+    pose proof (charge_after_exec_proof i len s0 s1 _ eq_refl Hd eq_refl Hb Hs) as X end;
+    (replace (pc s + 6 - 2) with (pc s + 4) in X by lia);
+    (eapply step_movl_load_abs16_proof; try eassumption; exact X).
+Qed.
 
-Theorem step_movl_store_abs16_charged_reference_total :
-  forall s w1 d w3 w4 rs a s',
+Theorem step_movl_store_abs16_priced s w1 d w3 w4 rs a s' :
   cpu_ok s -> bus_bytes_ok s -> fault s = false -> pc s mod 2 = 0 -> 0 <= pc s -> pc s + 6 < 4294967296 ->
   mem_read SW s (pc s) = Some 0x0100 -> mem_read SW s (pc s + 2) = Some w1 -> mem_read SW s (pc s + 4) = Some d ->
   decode_ref 0x0100 w1 d w3 w4 = Some (IMovStore SL rs (EAbs a), 6) ->
   dom_c20 (IMovStore SL rs (EAbs a)) 6 s = true -> bytes_ok (cbus s) ->
   sem_ref (IMovStore SL rs (EAbs a)) 6 s = Some s' ->
   step s = Ok (charge_ref (IMovStore SL rs (EAbs a)) 6 s) (set_opc (pc s + 4) s').
-Proof. exact step_movl_store_abs16_priced. Qed.
+Proof.
+  intros.
+  all: match goal with Hd : dom_c20 ?i ?len ?s0 = true, Hs : sem_ref ?i ?len ?s0 = Some ?s1, Hb : bytes_ok _ |- _ =>
+    pose proof (charge_after_exec_proof i len s0 s1 _ eq_refl Hd eq_refl Hb Hs) as X end;
+    (replace (pc s + 6 - 2) with (pc s + 4) in X by lia);
+    (eapply step_movl_store_abs16_proof; try eassumption; exact X).
+Qed.
 
-Theorem step_movl_load_abs24_charged_reference_total :
-  forall s w1 h l w4 a rd s',
+Theorem step_movl_load_abs24_priced s w1 h l w4 a rd s' :
   cpu_ok s -> bus_bytes_ok s -> fault s = false -> pc s mod 2 = 0 -> 0 <= pc s -> pc s + 8 < 4294967296 ->
   mem_read SW s (pc s) = Some 0x0100 -> mem_read SW s (pc s + 2) = Some w1 ->
   mem_read SW s (pc s + 4) = Some h -> mem_read SW s (pc s + 6) = Some l ->
@@ -490,10 +588,15 @@ Theorem step_movl_load_abs24_charged_reference_total :
   dom_c20 (IMovLoad SL (EAbs a) rd) 8 s = true -> bytes_ok (cbus s) ->
   sem_ref (IMovLoad SL (EAbs a) rd) 8 s = Some s' ->
   step s = Ok (charge_ref (IMovLoad SL (EAbs a) rd) 8 s) (set_opc (pc s + 6) s').
-Proof. exact step_movl_load_abs24_priced. Qed.
+Proof.
+  intros.
+  all: match goal with Hd : dom_c20 ?i ?len ?s0 = true, Hs : sem_ref ?i ?len ?s0 = Some ?s1, Hb : bytes_ok _ |- _ =>
+    pose proof (charge_after_exec_proof i len s0 s1 _ eq_refl Hd eq_refl Hb Hs) as X end;
+    (replace (pc s + 8 - 2) with (pc s + 6) in X by lia);
+    (eapply step_movl_load_abs24_proof; try eassumption; exact X).
+Qed.
 
-Theorem step_movl_store_abs24_charged_reference_total :
-  forall s w1 h l w4 rs a s',
+Theorem step_movl_store_abs24_priced s w1 h l w4 rs a s' :
   cpu_ok s -> bus_bytes_ok s -> fault s = false -> pc s mod 2 = 0 -> 0 <= pc s -> pc s + 8 < 4294967296 ->
   mem_read SW s (pc s) = Some 0x0100 -> mem_read SW s (pc s + 2) = Some w1 ->
   mem_read SW s (pc s + 4) = Some h -> mem_read SW s (pc s + 6) = Some l ->
@@ -501,10 +604,15 @@ Theorem step_movl_store_abs24_charged_reference_total :
   dom_c20 (IMovStore SL rs (EAbs a)) 8 s = true -> bytes_ok (cbus s) ->
   sem_ref (IMovStore SL rs (EAbs a)) 8 s = Some s' ->
   step s = Ok (charge_ref (IMovStore SL rs (EAbs a)) 8 s) (set_opc (pc s + 6) s').
-Proof. exact step_movl_store_abs24_priced. Qed.
+Proof.
+  intros.
+  all: match goal with Hd : dom_c20 ?i ?len ?s0 = true, Hs : sem_ref ?i ?len ?s0 = Some ?s1, Hb : bytes_ok _ |- _ =>
+    pose proof (charge_after_exec_proof i len s0 s1 _ eq_refl Hd eq_refl Hb Hs) as X end;
+    (replace (pc s + 8 - 2) with (pc s + 6) in X by lia);
+    (eapply step_movl_store_abs24_proof; try eassumption; exact X).
+Qed.
 
-Theorem step_movl_load_disp24_charged_reference_total :
-  forall s w1 w2 h l r disp rd s',
+Theorem step_movl_load_disp24_priced s w1 w2 h l r disp rd s' :
   cpu_ok s -> bus_bytes_ok s -> fault s = false -> pc s mod 2 = 0 -> 0 <= pc s -> pc s + 10 < 4294967296 ->
   mem_read SW s (pc s) = Some 0x0100 -> mem_read SW s (pc s + 2) = Some w1 -> mem_read SW s (pc s + 4) = Some w2 ->
   mem_read SW s (pc s + 6) = Some h -> mem_read SW s (pc s + 8) = Some l ->
@@ -512,10 +620,15 @@ Theorem step_movl_load_disp24_charged_reference_total :
   dom_c20 (IMovLoad SL (EDisp r disp) rd) 10 s = true -> bytes_ok (cbus s) ->
   sem_ref (IMovLoad SL (EDisp r disp) rd) 10 s = Some s' ->
   step s = Ok (charge_ref (IMovLoad SL (EDisp r disp) rd) 10 s) (set_opc (pc s + 8) s').
-Proof. exact step_movl_load_disp24_priced. Qed.
+Proof.
+  intros.
+  all: match goal with Hd : dom_c20 ?i ?len ?s0 = true, Hs : sem_ref ?i ?len ?s0 = Some ?s1, Hb : bytes_ok _ |- _ =>
+    pose proof (charge_after_exec_proof i len s0 s1 _ eq_refl Hd eq_refl Hb Hs) as X end;
+    (replace (pc s + 10 - 2) with (pc s + 8) in X by lia);
+    (eapply step_movl_load_disp24_proof; try eassumption; exact X).
+Qed.
 
-Theorem step_movl_store_disp24_charged_reference_total :
-  forall s w1 w2 h l rs r disp s',
+Theorem step_movl_store_disp24_priced s w1 w2 h l rs r disp s' :
   cpu_ok s -> bus_bytes_ok s -> fault s = false -> pc s mod 2 = 0 -> 0 <= pc s -> pc s + 10 < 4294967296 ->
   mem_read SW s (pc s) = Some 0x0100 -> mem_read SW s (pc s + 2) = Some w1 -> mem_read SW s (pc s + 4) = Some w2 ->
   mem_read SW s (pc s + 6) = Some h -> mem_read SW s (pc s + 8) = Some l ->
@@ -523,40 +636,60 @@ Theorem step_movl_store_disp24_charged_reference_total :
   dom_c20 (IMovStore SL rs (EDisp r disp)) 10 s = true -> bytes_ok (cbus s) ->
   sem_ref (IMovStore SL rs (EDisp r disp)) 10 s = Some s' ->
   step s = Ok (charge_ref (IMovStore SL rs (EDisp r disp)) 10 s) (set_opc (pc s + 8) s').
-Proof. exact step_movl_store_disp24_priced. Qed.
+Proof.
+  intros.
+  all: match goal with Hd : dom_c20 ?i ?len ?s0 = true, Hs : sem_ref ?i ?len ?s0 = Some ?s1, Hb : bytes_ok _ |- _ =>
+    pose proof (charge_after_exec_proof i len s0 s1 _ eq_refl Hd eq_refl Hb Hs) as X end;
+    (replace (pc s + 10 - 2) with (pc s + 8) in X by lia);
+    (eapply step_movl_store_disp24_proof; try eassumption; exact X).
+Qed.
 
-Theorem step_stc_ern_charged_reference_total :
-  forall s w1 w2 w3 w4 r s',
+Theorem step_stc_ern_priced s w1 w2 w3 w4 r s' :
   cpu_ok s -> bus_bytes_ok s -> fault s = false -> pc s mod 2 = 0 -> 0 <= pc s -> pc s + 4 < 4294967296 ->
   mem_read SW s (pc s) = Some 0x0140 -> mem_read SW s (pc s + 2) = Some w1 ->
   decode_ref 0x0140 w1 w2 w3 w4 = Some (IStcW (EInd r), 4) ->
   dom_c20 (IStcW (EInd r)) 4 s = true -> bytes_ok (cbus s) ->
   sem_ref (IStcW (EInd r)) 4 s = Some s' ->
   step s = Ok (charge_ref (IStcW (EInd r)) 4 s) (set_opc (pc s + 2) s').
-Proof. exact step_stc_ern_priced. Qed.
+Proof.
+  intros.
+  all: match goal with Hd : dom_c20 ?i ?len ?s0 = true, Hs : sem_ref ?i ?len ?s0 = Some ?s1, Hb : bytes_ok _ |- _ =>
+    pose proof (charge_after_exec_proof i len s0 s1 _ eq_refl Hd eq_refl Hb Hs) as X end;
+    (replace (pc s + 4 - 2) with (pc s + 2) in X by lia);
+    (eapply step_stc_ern_proof; try eassumption; exact X).
+Qed.
 
-Theorem step_stc_disp16_charged_reference_total :
-  forall s w1 d w3 w4 r disp s',
+Theorem step_stc_disp16_priced s w1 d w3 w4 r disp s' :
   cpu_ok s -> bus_bytes_ok s -> fault s = false -> pc s mod 2 = 0 -> 0 <= pc s -> pc s + 6 < 4294967296 ->
   mem_read SW s (pc s) = Some 0x0140 -> mem_read SW s (pc s + 2) = Some w1 -> mem_read SW s (pc s + 4) = Some d ->
   decode_ref 0x0140 w1 d w3 w4 = Some (IStcW (EDisp r disp), 6) ->
   dom_c20 (IStcW (EDisp r disp)) 6 s = true -> bytes_ok (cbus s) ->
   sem_ref (IStcW (EDisp r disp)) 6 s = Some s' ->
   step s = Ok (charge_ref (IStcW (EDisp r disp)) 6 s) (set_opc (pc s + 4) s').
-Proof. exact step_stc_disp16_priced. Qed.
+Proof.
+  intros.
+  all: match goal with Hd : dom_c20 ?i ?len ?s0 = true, Hs : sem_ref ?i ?len ?s0 = Some ?s1, Hb : bytes_ok _ |- _ =>
+    pose proof (charge_after_exec_proof i len s0 s1 _ eq_refl Hd eq_refl Hb Hs) as X end;
+    (replace (pc s + 6 - 2) with (pc s + 4) in X by lia);
+    (eapply step_stc_disp16_proof; try eassumption; exact X).
+Qed.
 
-Theorem step_stc_abs16_charged_reference_total :
-  forall s w1 d w3 w4 a s',
+Theorem step_stc_abs16_priced s w1 d w3 w4 a s' :
   cpu_ok s -> bus_bytes_ok s -> fault s = false -> pc s mod 2 = 0 -> 0 <= pc s -> pc s + 6 < 4294967296 ->
   mem_read SW s (pc s) = Some 0x0140 -> mem_read SW s (pc s + 2) = Some w1 -> mem_read SW s (pc s + 4) = Some d ->
   decode_ref 0x0140 w1 d w3 w4 = Some (IStcW (EAbs a), 6) ->
   dom_c20 (IStcW (EAbs a)) 6 s = true -> bytes_ok (cbus s) ->
   sem_ref (IStcW (EAbs a)) 6 s = Some s' ->
   step s = Ok (charge_ref (IStcW (EAbs a)) 6 s) (set_opc (pc s + 4) s').
-Proof. exact step_stc_abs16_priced. Qed.
+Proof.
+  intros.
+  all: match goal with Hd : dom_c20 ?i ?len ?s0 = true, Hs : sem_ref ?i ?len ?s0 = Some ?s1, Hb : bytes_ok _ |- _ =>
+    pose proof (charge_after_exec_proof i len s0 s1 _ eq_refl Hd eq_refl Hb Hs) as X end;
+    (replace (pc s + 6 - 2) with (pc s + 4) in X by lia);
+    (eapply step_stc_abs16_proof; try eassumption; exact X).
+Qed.
 
-Theorem step_stc_abs24_charged_reference_total :
-  forall s w1 h l w4 a s',
+Theorem step_stc_abs24_priced s w1 h l w4 a s' :
   cpu_ok s -> bus_bytes_ok s -> fault s = false -> pc s mod 2 = 0 -> 0 <= pc s -> pc s + 8 < 4294967296 ->
   mem_read SW s (pc s) = Some 0x0140 -> mem_read SW s (pc s + 2) = Some w1 ->
   mem_read SW s (pc s + 4) = Some h -> mem_read SW s (pc s + 6) = Some l ->
@@ -564,10 +697,15 @@ Theorem step_stc_abs24_charged_reference_total :
   dom_c20 (IStcW (EAbs a)) 8 s = true -> bytes_ok (cbus s) ->
   sem_ref (IStcW (EAbs a)) 8 s = Some s' ->
   step s = Ok (charge_ref (IStcW (EAbs a)) 8 s) (set_opc (pc s + 6) s').
-Proof. exact step_stc_abs24_priced. Qed.
+Proof.
+  intros.
+  all: match goal with Hd : dom_c20 ?i ?len ?s0 = true, Hs : sem_ref ?i ?len ?s0 = Some ?s1, Hb : bytes_ok _ |- _ =>
+    pose proof (charge_after_exec_proof i len s0 s1 _ eq_refl Hd eq_refl Hb Hs) as X end;
+    (replace (pc s + 8 - 2) with (pc s + 6) in X by lia);
+    (eapply step_stc_abs24_proof; try eassumption; exact X).
+Qed.
 
-Theorem step_stc_disp24_charged_reference_total :
-  forall s w1 w2 h l r disp s',
+Theorem step_stc_disp24_priced s w1 w2 h l r disp s' :
   cpu_ok s -> bus_bytes_ok s -> fault s = false -> pc s mod 2 = 0 -> 0 <= pc s -> pc s + 10 < 4294967296 ->
   mem_read SW s (pc s) = Some 0x0140 -> mem_read SW s (pc s + 2) = Some w1 -> mem_read SW s (pc s + 4) = Some w2 ->
   mem_read SW s (pc s + 6) = Some h -> mem_read SW s (pc s + 8) = Some l ->
@@ -575,61 +713,10 @@ Theorem step_stc_disp24_charged_reference_total :
   dom_c20 (IStcW (EDisp r disp)) 10 s = true -> bytes_ok (cbus s) ->
   sem_ref (IStcW (EDisp r disp)) 10 s = Some s' ->
   step s = Ok (charge_ref (IStcW (EDisp r disp)) 10 s) (set_opc (pc s + 8) s').
-Proof. exact step_stc_disp24_priced. Qed.
-
-Print Assumptions fetch_cycles_price.
-Print Assumptions addressed_cycles_price.
-Print Assumptions alu_rr_charge_value_independent.
-Print Assumptions register_form_total_charge.
-Print Assumptions control_form_total_charge.
-Print Assumptions price_between_1_and_14.
-Print Assumptions total_charge.
-Print Assumptions instructions_leave_bus_controller.
-Print Assumptions charge_after_execution.
-Print Assumptions code_words_same_price.
-Print Assumptions step_mov_load_ern_charged_reference_total.
-Print Assumptions step_mov_store_ern_charged_reference_total.
-Print Assumptions step_mov_load_abs8_charged_reference_total.
-Print Assumptions step_mov_store_abs8_charged_reference_total.
-Print Assumptions step_mov_postinc_charged_reference_total.
-Print Assumptions step_mov_predec_charged_reference_total.
-Print Assumptions step_jsr_ind_charged_reference_total.
-Print Assumptions step_bcc16_charged_reference_total.
-Print Assumptions step_jmp_abs_charged_reference_total.
-Print Assumptions step_bsr16_charged_reference_total.
-Print Assumptions step_jsr_abs_charged_reference_total.
-Print Assumptions step_bit_ern_charged_reference_total.
-Print Assumptions step_bit_abs_charged_reference_total.
-Print Assumptions step_bcc8_charged_reference_total.
-Print Assumptions step_jmp_ern_charged_reference_total.
-Print Assumptions step_bsr8_charged_reference_total.
-Print Assumptions step_jsr_ern_charged_reference_total.
-Print Assumptions step_jmp_ind_charged_reference_total.
-Print Assumptions step_rts_charged_reference_total.
-Print Assumptions step_rte_charged_reference_total.
-Print Assumptions step_trapa_charged_reference_total.
-Print Assumptions step_movl_load_ern_charged_reference_total.
-Print Assumptions step_movl_store_ern_charged_reference_total.
-Print Assumptions step_pop_l_charged_reference_total.
-Print Assumptions step_push_l_charged_reference_total.
-Print Assumptions step_mov_load_disp16_charged_reference_total.
-Print Assumptions step_mov_store_disp16_charged_reference_total.
-Print Assumptions step_mov_load_abs16_charged_reference_total.
-Print Assumptions step_mov_store_abs16_charged_reference_total.
-Print Assumptions step_mov_load_abs24_charged_reference_total.
-Print Assumptions step_mov_store_abs24_charged_reference_total.
-Print Assumptions step_mov_load_disp24_charged_reference_total.
-Print Assumptions step_mov_store_disp24_charged_reference_total.
-Print Assumptions step_movl_load_disp16_charged_reference_total.
-Print Assumptions step_movl_store_disp16_charged_reference_total.
-Print Assumptions step_movl_load_abs16_charged_reference_total.
-Print Assumptions step_movl_store_abs16_charged_reference_total.
-Print Assumptions step_movl_load_abs24_charged_reference_total.
-Print Assumptions step_movl_store_abs24_charged_reference_total.
-Print Assumptions step_movl_load_disp24_charged_reference_total.
-Print Assumptions step_movl_store_disp24_charged_reference_total.
-Print Assumptions step_stc_ern_charged_reference_total.
-Print Assumptions step_stc_disp16_charged_reference_total.
-Print Assumptions step_stc_abs16_charged_reference_total.
-Print Assumptions step_stc_abs24_charged_reference_total.
-Print Assumptions step_stc_disp24_charged_reference_total.
+Proof.
+  intros.
+  all: match goal with Hd : dom_c20 ?i ?len ?s0 = true, Hs : sem_ref ?i ?len ?s0 = Some ?s1, Hb : bytes_ok _ |- _ =>
+    pose proof (charge_after_exec_proof i len s0 s1 _ eq_refl Hd eq_refl Hb Hs) as X end;
+    (replace (pc s + 10 - 2) with (pc s + 8) in X by lia);
+    (eapply step_stc_disp24_proof; try eassumption; exact X).
+Qed.
